@@ -7,6 +7,7 @@ import NfpmModel.Lemmas.RpmHdrLemmas
 import NfpmModel.Lemmas.PackageLemmas
 import NfpmModel.Lemmas.RpmFilesLemmas
 import NfpmModel.Lemmas.RpmSigLemmas
+import NfpmModel.Lemmas.RpmGenLemmas
 import NfpmModel.Digest
 import NfpmModel.Props.C05
 import NfpmModel.Props.C03
@@ -972,6 +973,116 @@ theorem rpm_payload_digest_entry (hex256 : Bytes → Bytes) (payloadZ : Bytes) (
   constructor
   · exact RpmFiles.strsOf_ent 5092 [hex256 payloadZ] _ rfl (by intro s hs; simp at hs; subst hs; exact hx _)
   · exact RpmFiles.u32sOf_ent 5093 [8] _ rfl (by intro n hn; simp at hn; subst hn; decide)
+
+/-! ### rpm: the main header as a whole -/
+
+/-- reading one relation category back from the assembled header -/
+theorem rpm_category_reads_back (g : RpmGen.Gen) (files : List RpmFiles.RFile) (rels : RpmRel.Cats) (ts : List Nat) (ns xs : List Bytes)
+    (a b c : Nat) (rs : List RpmRel.Rel) (ok : RpmRel.RelsOK rs)
+    (hin : ∀ e ∈ RpmRel.relEntries a b c rs, e ∈ RpmGen.allEntries g files rels ts ns xs)
+    (hother : rs = [] → ∀ t ∈ [a, b, c], t ∉ (RpmRel.entries rels).map (·.tag))
+    (hg : ∀ t ∈ [a, b, c], t ∉ RpmGen.genTags ∧ t ∉ RpmGen.fileTags ∧ t ∉ RpmGen.chTags) :
+    RpmRel.readRels a b c (RpmGen.mainHeader g files rels ts ns xs) = some rs := by
+  apply RpmRel.readRels_relEntries a b c rs _ ok
+  · intro he
+    have h := hother he
+    refine ⟨?_, ?_, ?_⟩
+    · exact RpmGen.absent_of_empty g files rels ts ns xs a (hg a (by simp)).1 (hg a (by simp)).2.1 (hg a (by simp)).2.2 (h a (by simp))
+    · exact RpmGen.absent_of_empty g files rels ts ns xs b (hg b (by simp)).1 (hg b (by simp)).2.1 (hg b (by simp)).2.2 (h b (by simp))
+    · exact RpmGen.absent_of_empty g files rels ts ns xs c (hg c (by simp)).1 (hg c (by simp)).2.1 (hg c (by simp)).2.2 (h c (by simp))
+  · intro e he
+    exact RpmGen.lookup_mainHeader g files rels ts ns xs e (hin e he)
+
+/-- **rpm: the whole main header, from the resolved settings to the entries and back**: the header rpmpack assembles –
+    general entries, the sixteen file entries (when there are files), the relation entries of the six categories, nfpm's
+    changelog entries, sorted by tag – holds every entry under its own tag (no two share one, whatever the settings), and
+    a reader gets back from it the package's name, version and release, the file list row by row, and every relation
+    category complete and in order; a category without relations leaves no trace -/
+theorem rpm_main_header_reads_back (g : RpmGen.Gen) (files : List RpmFiles.RFile) (rels : RpmRel.Cats)
+    (ts : List Nat) (ns xs : List Bytes) (hne : files ≠ []) (fok : RpmFiles.FilesOK files)
+    (okP : RpmRel.RelsOK rels.provides) (okO : RpmRel.RelsOK rels.obsoletes) (okS : RpmRel.RelsOK rels.suggests)
+    (okR : RpmRel.RelsOK rels.recommends) (okQ : RpmRel.RelsOK rels.requires) (okC : RpmRel.RelsOK rels.conflicts) :
+    let hdr := RpmGen.mainHeader g files rels ts ns xs
+    RpmFiles.lookupTag 1000 hdr = some (RpmSig.entStr 1000 g.name)
+    ∧ RpmFiles.lookupTag 1001 hdr = some (RpmSig.entStr 1001 g.version)
+    ∧ RpmFiles.lookupTag 1002 hdr = some (RpmSig.entStr 1002 g.release)
+    ∧ RpmFiles.readFiles hdr = some (files.map RpmFiles.rowOf)
+    ∧ RpmRel.readRels 1047 1113 1112 hdr = some rels.provides
+    ∧ RpmRel.readRels 1090 1115 1114 hdr = some rels.obsoletes
+    ∧ RpmRel.readRels 5049 5050 5051 hdr = some rels.suggests
+    ∧ RpmRel.readRels 5046 5047 5048 hdr = some rels.recommends
+    ∧ RpmRel.readRels 1049 1050 1048 hdr = some rels.requires
+    ∧ RpmRel.readRels 1054 1055 1053 hdr = some rels.conflicts := by
+  intro hdr
+  have look := RpmGen.lookup_mainHeader g files rels ts ns xs
+  have inGen : ∀ e ∈ RpmGen.genEntries g, e ∈ RpmGen.allEntries g files rels ts ns xs := by
+    intro e he; unfold RpmGen.allEntries; simp [he]
+  have inFiles : ∀ e ∈ RpmFiles.fileEntries files, e ∈ RpmGen.allEntries g files rels ts ns xs := by
+    intro e he; unfold RpmGen.allEntries; simp [hne, he]
+  have inRel : ∀ e ∈ RpmRel.entries rels, e ∈ RpmGen.allEntries g files rels ts ns xs := by
+    intro e he; unfold RpmGen.allEntries; simp [he]
+  have cat : ∀ (a b c : Nat) (rs : List RpmRel.Rel), RpmRel.RelsOK rs →
+      (∀ e ∈ RpmRel.relEntries a b c rs, e ∈ RpmRel.entries rels) →
+      (rs = [] → ∀ t ∈ [a, b, c], t ∉ (RpmRel.entries rels).map (·.tag)) →
+      (∀ t ∈ [a, b, c], t ∉ RpmGen.genTags ∧ t ∉ RpmGen.fileTags ∧ t ∉ RpmGen.chTags) →
+      RpmRel.readRels a b c hdr = some rs := by
+    intro a b c rs ok hin hoth hg
+    exact rpm_category_reads_back g files rels ts ns xs a b c rs ok (fun e he => inRel e (hin e he)) hoth hg
+  refine ⟨?_, ?_, ?_, ?_, ?_, ?_, ?_, ?_, ?_, ?_⟩
+  · exact look (RpmSig.entStr 1000 g.name) (inGen _ (by unfold RpmGen.genEntries; simp))
+  · exact look (RpmSig.entStr 1001 g.version) (inGen _ (by unfold RpmGen.genEntries; simp))
+  · exact look (RpmSig.entStr 1002 g.release) (inGen _ (by unfold RpmGen.genEntries; simp))
+  · exact RpmFiles.readFiles_of_lookup files hdr fok (fun e he => look e (inFiles e he))
+  · apply cat 1047 1113 1112 rels.provides okP (by intro e he; unfold RpmRel.entries; simp [he])
+    · intro he t ht hm
+      rcases RpmGen.mem_entries_tags rels t hm with h | h | h | h | h | h
+      · exact h.1 he
+      all_goals (simp only [List.mem_cons, List.mem_nil_iff, or_false] at ht; omega)
+    · intro t ht; simp only [List.mem_cons, List.mem_nil_iff, or_false] at ht; rcases ht with rfl | rfl | rfl <;> decide
+  · apply cat 1090 1115 1114 rels.obsoletes okO (by intro e he; unfold RpmRel.entries; simp [he])
+    · intro he t ht hm
+      rcases RpmGen.mem_entries_tags rels t hm with h | h | h | h | h | h
+      · simp only [List.mem_cons, List.mem_nil_iff, or_false] at ht; omega
+      · exact h.1 he
+      all_goals (simp only [List.mem_cons, List.mem_nil_iff, or_false] at ht; omega)
+    · intro t ht; simp only [List.mem_cons, List.mem_nil_iff, or_false] at ht; rcases ht with rfl | rfl | rfl <;> decide
+  · apply cat 5049 5050 5051 rels.suggests okS (by intro e he; unfold RpmRel.entries; simp [he])
+    · intro he t ht hm
+      rcases RpmGen.mem_entries_tags rels t hm with h | h | h | h | h | h
+      · simp only [List.mem_cons, List.mem_nil_iff, or_false] at ht; omega
+      · simp only [List.mem_cons, List.mem_nil_iff, or_false] at ht; omega
+      · exact h.1 he
+      all_goals (simp only [List.mem_cons, List.mem_nil_iff, or_false] at ht; omega)
+    · intro t ht; simp only [List.mem_cons, List.mem_nil_iff, or_false] at ht; rcases ht with rfl | rfl | rfl <;> decide
+  · apply cat 5046 5047 5048 rels.recommends okR (by intro e he; unfold RpmRel.entries; simp [he])
+    · intro he t ht hm
+      rcases RpmGen.mem_entries_tags rels t hm with h | h | h | h | h | h
+      · simp only [List.mem_cons, List.mem_nil_iff, or_false] at ht; omega
+      · simp only [List.mem_cons, List.mem_nil_iff, or_false] at ht; omega
+      · simp only [List.mem_cons, List.mem_nil_iff, or_false] at ht; omega
+      · exact h.1 he
+      all_goals (simp only [List.mem_cons, List.mem_nil_iff, or_false] at ht; omega)
+    · intro t ht; simp only [List.mem_cons, List.mem_nil_iff, or_false] at ht; rcases ht with rfl | rfl | rfl <;> decide
+  · apply cat 1049 1050 1048 rels.requires okQ (by intro e he; unfold RpmRel.entries; simp [he])
+    · intro he t ht hm
+      rcases RpmGen.mem_entries_tags rels t hm with h | h | h | h | h | h
+      · simp only [List.mem_cons, List.mem_nil_iff, or_false] at ht; omega
+      · simp only [List.mem_cons, List.mem_nil_iff, or_false] at ht; omega
+      · simp only [List.mem_cons, List.mem_nil_iff, or_false] at ht; omega
+      · simp only [List.mem_cons, List.mem_nil_iff, or_false] at ht; omega
+      · exact h.1 he
+      · simp only [List.mem_cons, List.mem_nil_iff, or_false] at ht; omega
+    · intro t ht; simp only [List.mem_cons, List.mem_nil_iff, or_false] at ht; rcases ht with rfl | rfl | rfl <;> decide
+  · apply cat 1054 1055 1053 rels.conflicts okC (by intro e he; unfold RpmRel.entries; simp [he])
+    · intro he t ht hm
+      rcases RpmGen.mem_entries_tags rels t hm with h | h | h | h | h | h
+      · simp only [List.mem_cons, List.mem_nil_iff, or_false] at ht; omega
+      · simp only [List.mem_cons, List.mem_nil_iff, or_false] at ht; omega
+      · simp only [List.mem_cons, List.mem_nil_iff, or_false] at ht; omega
+      · simp only [List.mem_cons, List.mem_nil_iff, or_false] at ht; omega
+      · simp only [List.mem_cons, List.mem_nil_iff, or_false] at ht; omega
+      · exact h.1 he
+    · intro t ht; simp only [List.mem_cons, List.mem_nil_iff, or_false] at ht; rcases ht with rfl | rfl | rfl <;> decide
 
 /-- the rpmpack-level file of a planned member (C01's `rpmMember`) and the body nfpm hands over for it: the link
     target for an entry of type symlink, nothing for a directory entry, the bytes read from the source otherwise -/
